@@ -20,6 +20,13 @@ environment (`env` > 0, child started under C20_OMPENV) runs first on one thread
 delivers, and the promised outputs are compared.  A descriptor whose kernel is "py:..." drives a Python caller of the
 kernels (harness/c20_wrappers.py); every call any Python code makes through ImageD11.cImageD11 is guarded by the
 preconditions of KernelCalls!Extents (a violated one is a finding of the running case).
+A descriptor with a value class (`fv` other than "fin", KernelCalls!FV / FvAt) has that value (NaN, +inf, -inf, -0.0, a
+denormal) written into the elements FvOn(at) of every float data array KernelCalls!FloatIn names, just before the kernel
+is entered (Ctx.call, by the argument names of the f2py signature); such a call is judged for sanitizer reports, poison
+in promised outputs, integer outputs outside their range and exceptions - not against the value references (what a
+kernel makes of a NaN is not part of the property; NaN may appear in float outputs).  On EVERY call the arguments named by
+KernelCalls!WorkArrays are handed over dirty: integer scratch arrays hold index-like values just outside the array
+(n, -1, n + 1, -2, 2^30, a large negative number), as a previous call on a longer list leaves them.
 A wrapper rejection (f2py raises before the kernel runs, e.g. zero-length arrays) is recorded, not judged.
 `<out>.cur` holds the index of the running case, so that a sanitizer abort names its case.
 
@@ -59,11 +66,67 @@ class Ctx(object):
         self.outs = {}                  # promised outputs of the running call, as judged (name -> copy)
         self.thread_dependent = False   # the handler says: this call's result legitimately depends on the schedule
         self.refcache = {}              # slow references that do not depend on the thread count
+        self.fv, self.at = "fin", "-"   # value class of the float data of the running call (KernelCalls!FV, FvAt)
+        self.floatin, self.work = (), ()  # KernelCalls!FloatIn / WorkArrays of the running kernel (lower-case names)
+        self.injected = 0               # float data arrays of the running call that received the value
+        self.skipped_refs = 0
+        self._sig = {}
+
+    @property
+    def finite(self):
+        return self.fv == "fin"
+
+    SPECIAL = {"nan": float("nan"), "pinf": float("inf"), "ninf": float("-inf"), "nzero": -0.0}
+
+    def inj(self, arr):
+        """write the value of the running call's class into the elements KernelCalls!FvOn names (in place; float arrays)"""
+        if self.finite or arr.dtype.kind != "f" or arr.size == 0:
+            return arr
+        flat = arr.reshape(-1)          # (C-contiguous arrays: a view)
+        if not np.shares_memory(flat, arr):
+            raise RuntimeError("inj: array is not contiguous")
+        x = (1e-42 if arr.dtype == np.float32 else 1e-310) if self.fv == "denorm" else self.SPECIAL[self.fv]
+        if self.at == "odd":
+            flat[1::2] = x
+        elif self.at == "all":
+            flat[:] = x
+        elif self.at == "last":
+            flat[-1] = x
+        else:
+            raise KeyError(self.at)
+        if not (self.at == "odd" and flat.size < 2):
+            self.injected += 1
+        return arr
+
+    @staticmethod
+    def dirty_index(n, dtype):
+        """scratch content that looks like indices just outside an array of n elements (and far outside)"""
+        pat = np.array([n, -1, n + 1, -2, 2 ** 30, P_I32], np.int64)
+        return pat[np.arange(n) % 6].astype(dtype)
+
+    def argnames(self, fn):
+        key = id(fn)
+        if key not in self._sig:
+            import re
+            first = (fn.__doc__ or "").strip().splitlines()[0]
+            m = re.search(r"\(([^)]*)\)", first)
+            names = [x.strip().lower() for x in m.group(1).replace("[", ",").replace("]", "").split(",")] if m else []
+            self._sig[key] = [x for x in names if x]
+        return self._sig[key]
 
     def bad(self, msg):
         self.problems.append(msg)
 
     def call(self, fn, *a, **k):
+        if self.work or not self.finite:
+            names = self.argnames(fn)
+            for nm, arg in zip(names, a):
+                if not isinstance(arg, np.ndarray):
+                    continue
+                if nm in self.work and arg.dtype.kind == "i" and arg.dtype.itemsize >= 4:
+                    arg.reshape(-1)[:] = self.dirty_index(arg.size, arg.dtype)
+                if nm in self.floatin and not self.finite:
+                    self.inj(arg)
         try:
             return fn(*a, **k)
         except (ValueError, TypeError) as e:
@@ -82,7 +145,7 @@ class Ctx(object):
             return True
         if a.dtype.kind == "f":
             badm = (a == poison)
-            if not nan_ok:
+            if not nan_ok and self.finite:
                 badm |= np.isnan(a)
         else:
             badm = (a == poison)
@@ -114,7 +177,7 @@ class Ctx(object):
             return True
         raw = a.view(np.uint8).reshape(a.size, a.dtype.itemsize)
         badm = (raw == 0xBE).all(axis=1) | (a == P_F64)
-        if a.dtype.kind == "f":
+        if a.dtype.kind == "f" and self.finite:
             badm |= np.isnan(a)
         if badm.any():
             k = int(np.nonzero(badm)[0][0])
@@ -125,10 +188,13 @@ class Ctx(object):
     def scalar(self, name, x, nan_ok=False):
         self.checked.add("ret")
         self.outs["ret:" + name] = x
-        if isinstance(x, float) and math.isnan(x) and not nan_ok:
+        if isinstance(x, float) and math.isnan(x) and not nan_ok and self.finite:
             self.bad("returned %s is NaN" % name)
 
     def eq(self, what, got, exp):
+        if not self.finite:             # (value references are not judged on non-finite data)
+            self.skipped_refs += 1
+            return True
         got = np.asarray(got)
         exp = np.asarray(exp)
         if got.shape != exp.shape or not np.array_equal(got, exp):
@@ -137,6 +203,9 @@ class Ctx(object):
         return True
 
     def close(self, what, got, exp, rel=1e-9, abs_=1e-12):
+        if not self.finite:
+            self.skipped_refs += 1
+            return True
         got = np.asarray(got, float)
         exp = np.asarray(exp, float)
         if got.shape != exp.shape:
@@ -523,6 +592,8 @@ def k_localmaxlabel(d, mat, cx):
     border[1:-1, 1:-1] = False
     if lab[border].any():
         cx.bad("localmaxlabel: border pixels carry labels")
+    if not cx.finite:
+        return
     if im.ns >= 3 and im.nf >= 3 and im.ns * im.nf <= 300000:
         key = ("lm", im.ns, im.nf, d["c1"], d["par"])          # (the definition does not know about threads)
         if key not in cx.refcache:
@@ -935,7 +1006,7 @@ def k_sparse_lml(d, mat, cx):
     cx.scalar("count", n)
     if nnz and (lab.min() < 1 or lab.max() > n):
         cx.bad("sparse_localmaxlabel: labels outside 1..%d: min %d max %d" % (n, lab.min(), lab.max()))
-    if nnz <= 60000 and d["par"] != "flat":
+    if nnz <= 60000 and d["par"] != "flat" and cx.finite:
         full = np.zeros((im.ns, im.nf), np.float32)
         full[im.m1] = v
         es = expected_sparse(full.ravel(), im.ns, im.nf, im.m1)
@@ -1096,6 +1167,10 @@ def k_refine_assigned(d, mat, cx):
     cx.scalar("drlv2", s)
     cx.defined("ubi", ubi, P_F64)
     sel = lab == label
+    if not cx.finite:
+        if npk != int(sel.sum()):       # (the count of assigned peaks does not depend on their values)
+            cx.bad("refine_assigned npk %d, peaks carrying the label %d" % (npk, int(sel.sum())))
+        return
     dr, ih = ref_drlv2(UBI0, gv)
     cx.eq("refine_assigned npk", npk, int(sel.sum()))
     cx.close("refine_assigned mean drlv2", s, dr[sel].mean() if sel.any() else 0.0)
@@ -1218,6 +1293,9 @@ def k_closest_vec(d, mat, cx):
     cx.defined("ic", ic, P_I32)
     if n == 1:
         cx.eq("closest_vec single vector", ic, [0])
+    elif n > 1 and not cx.finite:
+        if ic.min() < -1 or ic.max() >= n:        # (ic indexes x; -1 = none found)
+            cx.bad("closest_vec: ic outside -1..%d: min %d max %d" % (n - 1, ic.min(), ic.max()))
     elif n > 1:
         from scipy.spatial import cKDTree
         dd, ii = cKDTree(x).query(x, k=2)
@@ -1510,6 +1588,10 @@ def k_array_histogram(d, mat, cx):
     hist = np.full(nh, P_I32, np.int32)
     cx.call(cx.c.array_histogram, img, low, high, hist)
     cx.defined("hist", hist, P_I32)
+    if not cx.finite:                   # every pixel is counted in exactly one bin, whatever its value
+        if hist.min() < 0 or int(hist.sum()) != n:
+            cx.bad("array_histogram: %d pixels, bins sum to %d (min %d)" % (n, int(hist.sum()), hist.min()))
+        return
     ostep = np.float32(nh) / np.float32(high - low)
     with np.errstate(all="ignore"):
         b = np.floor((img - np.float32(low)) * ostep)
@@ -1754,6 +1836,8 @@ def run_descriptor(case, cx):
     d = case["d"]
     mat = case.get("mat") or {}
     cx.problems, cx.checked, cx.outs, cx.thread_dependent = [], set(), {}, False
+    cx.fv, cx.at, cx.injected = d.get("fv", "fin"), d.get("at", "-"), 0
+    cx.floatin, cx.work = tuple(case.get("floatin") or ()), tuple(case.get("work") or ())
     try:
         if d["k"].startswith("py:"):            # a Python caller of the kernels (KernelCalls!Callers)
             import c20_wrappers
@@ -1785,6 +1869,20 @@ def scalar_arguments(c):
     return out
 
 
+def float_array_arguments(c):
+    """the array arguments of every wrapper of the built module (f2py docstrings): name -> typecode, lower case"""
+    import re
+    out = {}
+    for n in dir(c):
+        f = getattr(c, n)
+        if type(f).__name__ != "fortran":
+            continue
+        body = (f.__doc__ or "").split("Returns\n-------")[0]
+        out[n] = dict((m.group(1).lower(), m.group(2)) for m in
+                      re.finditer(r"^(\w+) : (?:in/output|input) rank-\d array\('(\w)'\)", body, flags=re.M))
+    return out
+
+
 def main():
     sys.modules.setdefault("c20_driver", sys.modules[__name__])     # (c20_wrappers imports this module by its name)
     cases_path, out_path = sys.argv[1], sys.argv[2]
@@ -1809,6 +1907,7 @@ def main():
     old = cx.c.cimaged11_omp_get_max_threads()
     base = {}                   # descriptor without its thread count -> its promised outputs on one thread
     out["thread_compared"] = 0
+    out["fv_run"] = {}
     with open(cases_path) as f:
         lines = f.readlines()
     cur = open(out_path + ".cur", "w")
@@ -1884,6 +1983,11 @@ def main():
                             ck = out["caller_kernels"].setdefault(k, {})
                             for kk, nn in GD.case_calls.items():
                                 ck[kk] = ck.get(kk, 0) + nn
+                        if case["d"].get("fv", "fin") != "fin":     # value classes really written into a float data array
+                            fkey = "%s|%s|%s" % (k, case["d"]["fv"], case["d"]["at"])
+                            fr = out["fv_run"].setdefault(fkey, [0, 0])
+                            fr[0] += 1
+                            fr[1] += 1 if cx.injected else 0
                         okey = "%s|opt=%d|vb=%d" % (k, case["d"].get("opt", 0), case["d"].get("vb", 0))
                         out["options_run"][okey] = out["options_run"].get(okey, 0) + 1
                         prev = out["checked"].get(k)
@@ -1917,6 +2021,8 @@ def main():
     out["genbad"] = cx.genbad[:20]
     out["notes"] = dict(cx.notes, **FOREIGN)
     out["guarded_calls"] = dict(GD.calls)
+    out["skipped_refs"] = cx.skipped_refs
+    out["float_arrays"] = float_array_arguments(cx.c)
     with open(out_path, "w") as g:
         json.dump(out, g, default=_jd)
 
